@@ -1,8 +1,10 @@
 import XvcTargets.Model
+import XvcTargets.Lemmas
 /-!
   Line-protocol driver for the targets model.  `lib/c18.py` sends the current directory, the
   recorded paths, the paths on disk (with the directories marked), the targets, and asks which
-  recorded paths / paths on disk the model selects.
+  recorded paths / paths on disk the model selects (`sel store`, `sel disk`), and which of them lie
+  below the current directory according to the specification `properAncestor` (`sel below`).
 -/
 open Targets
 
@@ -36,6 +38,9 @@ def step (st : DState) (line : String) : DState × String :=
   | ["sel", "disk"] =>
     let isDir := fun d => st.dirs.contains d
     (st, showSel (selectDisk globMatch isDir (fun _ => false) false st.cwd st.targets st.disk))
+  | ["sel", "below"] =>
+    -- the specification `properAncestor` (Lemmas.lean) on the recorded paths and on the paths on disk
+    (st, showSel (st.store.filter (properAncestor st.cwd)) ++ ";" ++ showSel (st.disk.filter (properAncestor st.cwd)))
   | ["xvcpath", p] => (st, "/".intercalate ((xvcPathNew st.cwd p.toList).map String.ofList))
   | [""] => (st, "")
   | _ => (st, "bad-op")
